@@ -409,3 +409,10 @@ def run_peaks(case, out):
             out.check(m5.df.equals(df), "peaks:result_changes_with_output_path", "")
             bad = oracle.em_motl_mismatch("peaks.em", df)
             out.check(bad is None, f"peaks:output_file_{bad}", "")
+
+
+# rejected calls that run before every case (vlib/faults.py): nothing they leave behind - module state, library options,
+# stray files - may make the valid calls of the case violate the statement
+from vlib import faults as _faults  # noqa: E402
+
+fault_calls = _faults.for_property(ID)
